@@ -592,6 +592,10 @@ func SimAck(fn *ssa.Function, must Matcher, allow func(st *simState) string) (vi
 			okReturns[ret] = true
 			return false
 		}
+		// the returned error is computed from the failed attempt's error (collected, joined, wrapped)
+		if rev := st.Resolve(ev); st.Nilness(ev) == -1 && DerivesFrom(v, func(x ssa.Value) bool { return x == ev || x == rev }) {
+			return false
+		}
 		if !seen[ret] {
 			seen[ret] = true
 			why := "the last attempt's error is not known to be nil on this path"
